@@ -55,6 +55,17 @@
 (*   "mut_dirty"   the dirty option is ignored                             *)
 (*   "mut_failed"  cleanup also runs after a failed process()              *)
 (*   "mut_touched" modules updated in this run are not added to retain     *)
+(*   "mut_next_update" retain looks at the earlier of the EE certificate's  *)
+(*        notAfter and the manifest's nextUpdate, in a world where every    *)
+(*        manifest is past its nextUpdate when it is stored (the stale      *)
+(*        policy accepts it)                                                *)
+(*                                                                         *)
+(* The manifest's nextUpdate.  StoredPoint::retain reads the EE            *)
+(* certificate's notAfter only (store.rs:1370-1373), so the model has no   *)
+(* variable for nextUpdate.  The replay runs a third of the histories in   *)
+(* exactly the world of "mut_next_update": all runs with stale = accept    *)
+(* (as always) and every CA manifest issued with a nextUpdate that has     *)
+(* already passed; the expectations are the same.                          *)
 (***************************************************************************)
 EXTENDS Naturals, FiniteSets, TLC
 
@@ -71,7 +82,7 @@ CONSTANTS NPoints,      \* points 1..NPoints; the TA lists them in this order
           Ticks,        \* subset of BOOLEAN: does a run cross a wall-clock second boundary (see below)
           Variant
 
-ASSUME Variant \in {"as_code", "mut_expiry", "mut_retain", "mut_dirty", "mut_failed", "mut_touched"}
+ASSUME Variant \in {"as_code", "mut_expiry", "mut_retain", "mut_dirty", "mut_failed", "mut_touched", "mut_next_update"}
 
 Points == 1..NPoints
 Homes  == [mod : Modules, notify : Transports]
@@ -273,7 +284,9 @@ ValidateInitial ==
 (* ------------------------------------------------------------------ *)
 (* StoredPoint::retain, store.rs:1089 *)
 Retain(p, r) ==
-  CASE r.st = "ok"  -> IF Variant = "mut_expiry" THEN Expired(p, r.v) ELSE ~Expired(p, r.v)
+  CASE r.st = "ok"  -> IF Variant = "mut_expiry" THEN Expired(p, r.v)
+                       ELSE IF Variant = "mut_next_update" THEN FALSE
+                       ELSE ~Expired(p, r.v)
     [] r.st = "att" -> r.fresh
     [] OTHER -> FALSE
 
